@@ -6,9 +6,12 @@ fn main() {
     match args[1].as_str() {
         "c05_peerstate_closed" => c05_peerstate_closed(&mut nd),
         "c05_manager_established" => c05_manager_established(&mut nd),
+        "c15_get_record" => c15_get_record(&mut nd),
+        "c15_get_providers" => c15_get_providers(&mut nd),
         "c15_find_node" => c15_find_node(&mut nd),
         "c04_identity_receive" => c04_identity_receive(&mut nd),
         "c04_sink_flush" => c04_sink_flush(&mut nd),
+        "c05_manager_steps" => c05_manager_steps(&mut nd),
         "c05_dial_address" => c05_dial_address(&mut nd),
         "c16_put_to_targets" => c16_put_to_targets(&mut nd),
         "c20_batching" => c20_batching(&mut nd),
